@@ -21,6 +21,7 @@ fn adapter(name: &str, variant: &str) -> Option<Box<dyn Adapter>> {
         "coalesce" => Box::new(adapters::coalesce::CoalesceAd::new()),
         "fallback" => Box::new(adapters::fallback::FallbackAd::new()),
         "stacks" => Box::new(adapters::stacks::StacksAd::new()),
+        "executor" => Box::new(adapters::executor::ExecutorAd::new()),
         "circuitbreaker" => Box::new(adapters::circuitbreaker::CbAd::new(variant)),
         _ => return None,
     })
